@@ -13,6 +13,7 @@ use kestrel_crypto::{AsymFileFormat, PassFileFormat, PayloadKey, PrivateKey, Pub
 
 mod zero;
 mod mem;
+mod c09mem;
 
 fn unhex(s: &str) -> Vec<u8> {
     if s == "-" {
@@ -391,6 +392,7 @@ fn run(a: &[&str]) -> String {
         }
         op if op.starts_with("z_") => zero::run(a),
         op if op.starts_with("mem_") => mem::run(a),
+        "c09mem" => c09mem::run(a),
         _ => "outcome=badop".into(),
     }
 }
